@@ -89,6 +89,15 @@ Proof.
 Qed.
 Print Assumptions c18_priority.
 
+(* the function's own checks (assert_consumption_within_limits and the two validators of
+   validate_results.py it calls) never fire on non-negative round-1 series when the ceiling does not exceed the
+   daily need: the hand-off is always produced *)
+Theorem c18_min_needs_validators_accept : forall K T pf Kc N r,
+  r1_nonneg r -> (N <= min_len r)%nat -> 0 <= needs_cap K T pf -> needs_cap K T pf <= Kc * (1 + eps4) ->
+  exists d, min_needs K T pf Kc N r = Ok d.
+Proof. exact min_needs_accepts. Qed.
+Print Assumptions c18_min_needs_validators_accept.
+
 (* ---------------------------------------------------------------- fill_negatives_with_positives *)
 
 Theorem c18_fill_sum : forall d, List.length (fill d) = List.length d /\ qsum (fill d) == qsum d.
